@@ -28,6 +28,7 @@ def _feature(location, type="CDS"):  # pylint: disable=redefined-builtin
 
 
 REAL["FeatureWithLocation"] = _feature
+REAL["SortableFeature"] = _feature
 
 
 def _hmmer_hit(evalue, score):
